@@ -67,7 +67,7 @@ Definition add_cid2unichr (m : umap) (cid : Z) (code : tobj) : ures :=
     else UOk ((cid, u) :: m) in
   match code with
   | TName (Some n) => match name2unicode n with Some u => put u | None => UKeyError end
-  | TName None => UAssertion
+  | TName None => UTypeError                     (* a name that is not text: PDFTypeError *)
   | TBytes b => put (utf16be (S (length b)) b)
   | TInt z => if (0 <=? z) && (z <=? 1114111) then put [z] else UStructError   (* chr() ValueError *)
   | _ => UTypeError
@@ -100,7 +100,7 @@ Fixpoint range_incr (m : umap) (start : Z) (prefix : list Z) (base : Z) (vlen : 
       match pack_tail (base + i) vlen with
       | Some t => bind (add_cid2unichr m (start + i) (TBytes (prefix ++ t)))
                        (fun m' => range_incr m' start prefix base vlen (i + 1) n')
-      | None => UStructError
+      | None => UOk m                            (* beyond 32 bits: the rest of this range is dropped *)
       end
   end.
 
@@ -125,7 +125,7 @@ Fixpoint bfrange (m : umap) (ts : list (tobj * tobj * tobj)) : ures :=
         | TBytes c =>
             bind (range_incr m start (butlastn 4 c) (nunpack (lastn 4 c)) (length (lastn 4 c)) 0 (Nat.min n MAX_RANGE))
                  (fun m' => bfrange m' r)
-        | _ => UAssertion
+        | _ => bfrange m r                       (* neither a string nor an array: the entry is skipped *)
         end
   | _ :: r => bfrange m r
   end.
